@@ -505,12 +505,14 @@ def _tree_cases(ctx):
                                 cases += [dict(c, root=[a]) for a in range(len(ALPHABETS['A7']))]
                             else:
                                 cases.append(c)
-    if not q:
-        # larger alphabet (exp over/underflow magnitudes) at depth <= 4
+    if True:
+        # larger alphabet (exp over/underflow magnitudes: a jump of the log-target beyond +-709 overflows np.exp) at
+        # depth <= 3 (quick) / <= 4 (thorough)
+        dmax = 3 if q else 4
         for dim in (1, 2):
             for w in (0, 1, 2):
-                for n in range(1, 4 - w + 1):
-                    for s in seeds[:2]:
+                for n in range(1, dmax - w + 1):
+                    for s in (seeds[:1] if q else seeds[:2]):
                         cases.append({'kind': 'mtree', 'dim': dim, 'sigma': 'v', 'n': n, 'w': w, 'seed': s,
                                       'start': 0.0, 'alph': 'A9'})
     return cases
@@ -625,7 +627,7 @@ def run(ctx):
         'metropolis-targets / nuts-targets: full product target x dim x configuration x start x seed, one case = one '
         'seeded run (executed twice for determinism); distinct by case content. moments: fixed table.')
     ctx.assumptions += [
-        'scripted answers: A7 = {-1, 0, -3, +2, -inf, +inf, NaN} (thorough also A9 = A7 + {+800, -800} at <= 4 steps); '
+        'scripted answers: A7 = {-1, 0, -3, +2, -inf, +inf, NaN}, and A9 = A7 + {+800, -800} at <= 3 steps (thorough <= 4); '
         'chains of n_samples + warm-up <= %d steps, n_samples >= 1, warm-up 0..2, dim 1..2, sigma in {0.5 scalar, per-'
         'coordinate vector}; start value finite (the statement assumes a valid start)' % (4 if ctx.quick else 6),
         'the scripted log-target is a function of the point (a re-evaluated point gets the same answer; the k-th new '
